@@ -11,6 +11,7 @@ int drv_ref(int argc, char **argv);
 int drv_threads(int argc, char **argv);
 int drv_strerr(int argc, char **argv);
 int drv_dargs(int argc, char **argv);
+int drv_keyres(int argc, char **argv);
 int drv_sgl(int argc, char **argv);
 int drv_kinds(int argc, char **argv);
 int drv_invalid(int argc, char **argv);
@@ -44,6 +45,8 @@ main(int argc, char **argv)
                 return drv_sgl(argc - 2, argv + 2);
         if (!strcmp(argv[1], "threads"))
                 return drv_threads(argc - 2, argv + 2);
+        if (!strcmp(argv[1], "keyres"))
+                return drv_keyres(argc - 2, argv + 2);
         if (!strcmp(argv[1], "dargs"))
                 return drv_dargs(argc - 2, argv + 2);
         if (!strcmp(argv[1], "strerr"))
